@@ -2,7 +2,7 @@
 CLAIMS = {'simplecm': 'SimpleContentModel::validateContent for every operator x DTD/schema naming x every child sequence <= N: accepted iff in the regular language',
           'mixedcm': 'MixedContentModel::validateContent (unordered, as both construction sites use it): accepted iff every element child is declared; failing index = first undeclared child'}
 ASSUMPTIONS = ['QName objects are built field by field (raw name = local part, no prefix); names over {a,b,c} x URI ids {2,3,4}', 'XMLString::equals real']
-TUS = ['validators/common/SimpleContentModel.cpp', 'validators/common/MixedContentModel.cpp', 'util/XMLString.cpp']
+TUS = ['framework/XMLElementDecl.cpp', 'validators/common/SimpleContentModel.cpp', 'validators/common/MixedContentModel.cpp', 'util/XMLString.cpp']
 HARNESSES = [
  dict(name='simplecm', entry='harness_simplecm', srcs=['C07/simplecm.cpp'], tus=TUS, defs={'quick': {'N': 3}, 'thorough': {'N': 5}}, unwind='N+3', timeout={'quick': 600, 'thorough': 1700}),
  dict(name='mixedcm', entry='harness_mixedcm', srcs=['C07/simplecm.cpp'], tus=TUS, defs={'quick': {'N': 2, 'M': 3}, 'thorough': {'N': 3, 'M': 3}}, unwind='N+M+2', timeout={'quick': 600, 'thorough': 1700}),
